@@ -55,8 +55,12 @@ LT = List(Ref("TaskerS"))
 classdecl("StoreS", fields=dict(stamp=REAL))
 classdecl("TimerS", fields={})
 classdecl("TaskerS", fields=dict(desire=INT, status=INT, period=REAL, schedule=INT, store=Ref("StoreS")))
+# the entries of .aborted are typed with an alias class so that the two deques live in different heap arrays (they are
+# different objects anyway: DISTINCT below); reads of `ready` then do not drag the writes to `aborted` along
+classdecl("TaskerAb", bases=("TaskerS",), fields={})
+ENT_AB = Tup(Ref("TaskerAb"), REAL, REAL)
 classdecl("HouseS", fields=dict(store=Ref("StoreS"), taskables=LT, fronts=LT, mids=LT, backs=LT))
-classdecl("Skedder", file=FS, fields=dict(ready=Deque(ENT), aborted=Deque(ENT), stamp=REAL, period=REAL, real=BOOL,
+classdecl("Skedder", file=FS, fields=dict(ready=Deque(ENT), aborted=Deque(ENT_AB), stamp=REAL, period=REAL, real=BOOL,
                                           houses=List(Ref("HouseS")), timer=Ref("TimerS"), elapsed=Ref("TimerS")))
 
 REG.assume_note("C02/C03 tasker.runner.send(control) is a DEMONIC external: it may give every tasker any new .desire, "
@@ -142,21 +146,53 @@ def gget(E, name, idx):
     return Sym(z3.simplify(z3.Select(g.arr, idx)), g.ek)
 
 
+def _resolve_select(E, t):
+    """Select(Store(A, i, v), r) with i == r or i != r decided by the path condition -> v / Select(A, r)"""
+    while z3.is_select(t) and z3.is_store(t.arg(0)):
+        st, r = t.arg(0), t.arg(1)
+        inner, i, v = st.arg(0), st.arg(1), st.arg(2)
+        if i.eq(r) or not E.feasible(i != r):
+            t = v
+        elif not E.feasible(i == r):
+            t = z3.Select(inner, r)
+        else:
+            break
+    return t
+
+
+def _plain(t):
+    """no lambda / store / if-then-else inside: usable as (part of) a quantifier trigger as it stands"""
+    seen, stack = set(), [t]
+    while stack:
+        x = stack.pop()
+        if x.get_id() in seen:
+            continue
+        seen.add(x.get_id())
+        if z3.is_quantifier(x) or z3.is_store(x) or z3.is_app_of(x, z3.Z3_OP_ITE):
+            return False
+        stack.extend(x.children())
+    return True
+
+
 def snap(E, lv):
-    """snapshot of the current contents of a list: fresh array constants DEFINED equal to the current component arrays
-    (constants, unlike the lambda / store terms a popleft or append leaves behind, are usable as quantifier triggers)"""
+    """snapshot of the current contents of a list.  A component array that is a plain term is used as it stands;
+    otherwise (lambda / store terms left by popleft / append) a fresh array constant is DEFINED pointwise equal to it
+    (an array-level equation would be solved away by the solver's preprocessing, and the trigger with it)"""
     arrs = []
     k = z3.Int("k!snap")
+    n = E.llen(lv)
     for a in E.larrs(lv):
-        if z3.is_const(a) and a.decl().kind() == z3.Z3_OP_UNINTERPRETED:
+        a = _resolve_select(E, a)
+        if _plain(a):
             arrs.append(a)
             continue
         c = E.fresh("gh_snap", a.sort())
-        # pointwise definition (an array-level equation would be solved away by the solver's preprocessing, and the
-        # trigger with it)
-        E.assume(z3.ForAll([k], z3.Select(c, k) == z3.Select(a, k), patterns=[z3.Select(c, k)]))
+        # defined on the index range of the list only (nothing refers to a snapshot outside it; an unguarded
+        # definition over a shifted lambda term is also what keeps the solver from building counter-models)
+        E.assume(z3.ForAll([k], z3.Implies(z3.And(k >= 0, k < n), z3.Select(c, k) == z3.Select(a, k)),
+                           patterns=[z3.Select(c, k)]))
         arrs.append(c)
-    return GSnap(E.llen(lv), arrs, lv.et)
+    return GSnap(n, arrs, lv.et)
 
 
 def empty_snap(E):
@@ -275,10 +311,12 @@ def _runner(E, tasker):
 
 
 # ---------------------------------------------------------------- loop ghost callables
-def _tick_enter(E):
+def _tick_enter(E, variant=0):
     env = E.frame.env
-    env["g_R0"] = snap(E, env["ready"])
-    env["g_A0"] = snap(E, env["aborted"])
+    if variant != 2:
+        env["g_R0"] = snap(E, env["ready"])
+    if variant == 0:
+        env["g_A0"] = snap(E, env["aborted"])
     env["g_base"] = Sym(E.ct_length(), "int")
     _new_tick_ghost(E)
     for name in ("g_k", "g_d", "g_a"):
@@ -295,9 +333,8 @@ def _tick_end(E):
     env = E.frame.env
     i = zint(env["_i"])
     sent = env["g_sent"]
-    ent = env["g_R0"].at(i)
     if sent == 0:
-        st = E.rd_field(ent[0], "status")
+        st = E.rd_field(env["tasker"], "status")      # the popped entry's tasker (== R0[i].tasker by the queue invariant)
         gset(E, "g_st", i, st)
         stz = zint(st)
         out = z3.IntVal(0)
@@ -531,35 +568,62 @@ GHOST = {"before": {"more = False": _tick_boundary, KBI_LINE: _flag("g_kbi"), EX
                     EXC_LINE: _flag("g_exc")}}
 
 
-def _loops(c03):
-    tick = dict(inv=TICK_INV + (MORE_INV if c03 else []), locals={"g_w": INT}, enter=_tick_enter,
-                havoc=_havoc_ghost(GHOST_TICK),
-                body_begin=_tick_begin, body_end=_tick_end, force=True,
-                exit=(lambda E: _tick_exit(E, [] if c03 else TICK_POST)))
-    if c03:
-        tick["maybe_unbound"] = {"status": INT}
-    else:
-        tick["locals"] = {"g_w": INT, "status": INT}
-    return {
-        0: dict(inv=SETUP_OUTER, index_name="hix", force=True, havoc=_havoc_ghost(("g_off",)), exit=_obliger("setup-post", [] if c03 else SETUP_POST)),
-        1: dict(inv=SETUP_INNER, force=True, exit=_inner_exit),
-        2: dict(inv=OUTER_INV),
-        3: tick,
-        4: dict(inv=["True"]),
-        5: dict(inv=STAMP_INV, force=True, enter=_obliger("tick-post", CONTINUE_POST if c03 else STAMP_POST)),
-        6: dict(inv=SWEEP_INV, force=True, enter=_sweep_enter, body_begin=_sweep_begin, exit=_sweep_exit),
-    }
+# what [v1] needs of the queue during a tick: shape of `ready` and WHICH tasker sits where (not the times)
+QUEUE_INV = [
+    "len(ready) == len(g_R0) - _i + g_k[_i]",
+    "forall(lambda j: implies(0 <= j and j < len(g_R0) - _i, ready[j] == g_R0[_i + j]), trigger=lambda j: ready[j][0])",
+    "0 <= g_k[_i]",
+    "forall(lambda j: implies(0 <= j and j < _i and g_out[j] <= 1, 0 <= g_k[j] and g_k[j] < g_k[_i]), "
+    "trigger=lambda j: g_out[j])",
+    "forall(lambda j: implies(0 <= j and j < _i and g_out[j] <= 1, %s[0] is g_R0[j][0]), trigger=lambda j: g_out[j])" % POS,
+]
+IF_MORE = "if status == RUNNING or status == STARTED: more = True"
+
+
+def _status_maybe(E):
+    """[v2] reading `status` at the end of the tick body: when no statement of this path has bound it (the runner
+    raised StopIteration before the assignment), the local is either still unbound (no earlier entry of the whole
+    run assigned it) or holds the value left by the previously handled entry: both are explored"""
+    from pyvc.engine import _UNBOUND
+    env = E.frame.env
+    if "status" not in env or env["status"] is _UNBOUND:
+        if E.branch(E.fresh("bound_status", z3.BoolSort()), free=True):
+            env["status"] = E.fresh_val("stale_status", INT)
+
+
+def _loops(variant):
+    """variant 0: C02 (setup, tick rule, stamp); 1: C03 sweep and routes; 2: C03 `more` flag and exit conditions"""
+    bound_status = {"g_w": INT, "status": INT}
+    tick = dict(locals=bound_status, enter=lambda E: _tick_enter(E, variant), havoc=_havoc_ghost(GHOST_TICK), body_begin=_tick_begin,
+                body_end=_tick_end, force=True)
+    none = dict(inv=[], force=True)
+    if variant == 0:
+        tick.update(inv=TICK_INV, exit=lambda E: _tick_exit(E, TICK_POST))
+        return {0: dict(inv=SETUP_OUTER, index_name="hix", force=True, havoc=_havoc_ghost(("g_off",)),
+                        exit=_obliger("setup-post", SETUP_POST)),
+                1: dict(inv=SETUP_INNER, force=True, exit=_inner_exit),
+                2: dict(inv=OUTER_INV), 3: tick, 4: dict(inv=["True"]),
+                5: dict(inv=STAMP_INV, force=True, enter=_obliger("tick-post", STAMP_POST)),
+                6: dict(inv=SWEEP_INV[:1], force=True, enter=_sweep_enter, body_begin=_sweep_begin, exit=_sweep_exit)}
+    if variant == 1:
+        tick.update(inv=QUEUE_INV)
+        return {0: dict(none, index_name="hix"), 1: none, 2: dict(inv=[]), 3: tick, 4: dict(inv=["True"]), 5: none,
+                6: dict(inv=SWEEP_INV, force=True, enter=_sweep_enter, body_begin=_sweep_begin, exit=_sweep_exit)}
+    tick.update(inv=MORE_INV, locals={"g_w": INT})
+    return {0: dict(none, index_name="hix"), 1: none, 2: dict(inv=[]), 3: tick, 4: dict(inv=["True"]),
+            5: dict(inv=[], force=True, enter=_obliger("tick-post", CONTINUE_POST)),
+            6: dict(inv=SWEEP_INV[:1], force=True, enter=_sweep_enter, body_begin=_sweep_begin, exit=_sweep_exit)}
 
 
 RUN_MODIFIES = ["self.ready[*]", "self.aborted[*]", "self.stamp",
                 havoc_all_but({"TaskerS": ["desire", "period", "status"], "StoreS": ["stamp"]}, keep=[])]
+ANY_EXC = {"Exception": ["True"], "KeyboardInterrupt": ["True"], "SystemExit": ["True"]}
+RUN_PARAMS = dict(self=Ref("Skedder"), growable=BOOL)
 
-contract(FS, "Skedder.run", "C02", params=dict(self=Ref("Skedder"), growable=BOOL), setup=_setup_run, assumes=DISTINCT,
-         dedupe=True,
-         ghost=GHOST, loops=_loops(False), modifies=RUN_MODIFIES, frame=False,
-         raises={"Exception": ["True"], "KeyboardInterrupt": ["True"], "SystemExit": ["True"]},
-         note="[v0] C02: setup, tick rule, stamp.  The exits and the sweep are decided in [v1] (C03); paths on which "
-              "the local `status` is unbound at the head of the tick loop are generated in [v1] only")
+contract(FS, "Skedder.run", "C02", params=RUN_PARAMS, setup=_setup_run, assumes=DISTINCT, dedupe=True,
+         ghost=GHOST, loops=_loops(0), modifies=RUN_MODIFIES, frame=False, raises=ANY_EXC,
+         note="[v0] C02: setup, tick rule, stamp.  The exits and the sweep are decided in [v1]/[v2] (C03); the path on "
+              "which the local `status` is read unbound is generated in [v2] only")
 
 SWEPT = ["len(self.ready) == 0", "ct_len() == L_g_fbase + len(L_g_F0)", "aborts_in_order(L_g_F0, L_g_fbase)"]
 PARTIAL = ["len(self.ready) == len(L_g_F0) - L_g_swi - 1",
@@ -575,18 +639,26 @@ RAISER = "implies(L_g_insend, swept_abort(L_g_R0[L_g_cur][0]))"
 EXC_POST = (["implies(L_g_swept, %s)" % c for c in SWEPT] + ["implies(not L_g_swept, %s)" % c for c in PARTIAL] +
             ["implies(L_g_insend, %s)" % c for c in CUT] + [RAISER])
 
-contract(FS, "Skedder.run", "C03", params=dict(self=Ref("Skedder"), growable=BOOL), setup=_setup_run, assumes=DISTINCT,
-         dedupe=True,
-         ghost=GHOST, loops=_loops(True), modifies=RUN_MODIFIES, frame=False,
-         ensures=SWEPT + [
+contract(FS, "Skedder.run", "C03", params=RUN_PARAMS, setup=_setup_run, assumes=DISTINCT, dedupe=True,
+         ghost=GHOST, loops=_loops(1), modifies=RUN_MODIFIES, frame=False,
+         ensures=SWEPT + ["L_g_swept and not L_g_exc"] + ["implies(L_g_insend, %s)" % c for c in CUT] + [RAISER],
+         raises={"Exception": EXC_POST, "KeyboardInterrupt": EXC_POST, "SystemExit": EXC_POST},
+         findings={"tasker-send-raised": "True"},
+         note="[v1] C03: abort sweep on every route (normal, KeyboardInterrupt, exception re-raised); an exception out "
+              "of an ABORT send in the sweep escapes and leaves the remaining entries un-aborted (declared in raises: "
+              "limitation of the code)")
+
+GHOST2 = {"before": dict(GHOST["before"])}
+GHOST2["before"][IF_MORE] = _status_maybe
+contract(FS, "Skedder.run", "C03", params=RUN_PARAMS, setup=_setup_run, assumes=DISTINCT, dedupe=True,
+         ghost=GHOST2, loops=_loops(2), modifies=RUN_MODIFIES, frame=False,
+         ensures=[
              # the loop is left by `break` only right after a tick with nothing queued or nothing started / running
              # (or by KeyboardInterrupt)
-             "L_g_kbi or (not L_more) or len(L_g_F0) == 0",
-             "L_g_swept and not L_g_exc"] + ["implies(L_g_insend, %s)" % c for c in CUT] + [RAISER],
-         raises={"Exception": EXC_POST, "KeyboardInterrupt": EXC_POST, "SystemExit": EXC_POST},
-         findings={"tasker-send-raised": "True", "runner-stopped": "True"},
-         note="[v1] C03: `more`, exit conditions, abort sweep on every route; an exception out of an ABORT send in the "
-              "sweep escapes and leaves the remaining entries un-aborted (declared in raises: limitation of the code)")
+             "L_g_kbi or (not L_more) or len(L_g_F0) == 0"],
+         raises=ANY_EXC, findings={"runner-stopped": "True"},
+         note="[v2] C03: the `more` flag and the exit conditions; the queue shape is not carried here (a popleft from an "
+              "empty deque is then one more exceptional path, excluded in [v0]/[v1])")
 
 
 # ---------------------------------------------------------------- static obligation: who writes .ready
